@@ -80,30 +80,6 @@ theorem fdBlock_solves (e : ColEnv α) (hz : ∀ x, e.isZero x = true ↔ x = 0)
         obtain ⟨y, _, rfl⟩ := List.mem_map.1 hx
         exact ⟨rfl, rfl⟩
 
-theorem modifyRows_id {β : Type} (f : β → β) (hf : ∀ x, f x = x) (s : List β) (rows : List Nat) :
-    modifyRows f s rows = s := by
-  induction rows generalizing s with
-  | nil => rfl
-  | cons r rs ih =>
-    simp only [modifyRows]
-    cases h : s[r]? with
-    | none => exact ih s
-    | some x =>
-      simp only [hf]
-      rw [ih]
-      apply List.ext_getElem?
-      intro k
-      by_cases hk : r = k
-      · subst hk
-        have hlt : r < s.length := by
-          by_contra hge
-          rw [List.getElem?_eq_none (by omega)] at h
-          cases h
-        simp [List.getElem?_set, hlt]
-        rw [List.getElem?_eq_getElem hlt] at h
-        exact (Option.some.inj h).symm
-      · simp [List.getElem?_set, hk]
-
 /-- `if "d" not in incrb: d[self.rb] = 0` … (`FreqDirect.fsolve`): rows outside `rb` are untouched,
 rows in `rb` keep exactly the requested letters (`incrb_table_direct` at the level of the column). -/
 theorem fd_incrb_rows (inc : Incrb) (s : List (Dva α)) (rb : List Nat) (hnd : rb.Nodup) (r : Nat) :
